@@ -12,14 +12,15 @@ template<class T, size_t N> struct Ops {
     __attribute__((noinline)) Ops(const char* id, int divform) {
         vt::Rng r(vt::hash_str(id));
         static const int svals[3] = {2, 3, -2};
-        s = (T)svals[r.range(0, 2)];
+        s = vt::from_int2<T>(svals[r.range(0, 2)], r.range(-1, 1), vt::is_cx<T>());
         for (size_t i = 0; i < N; ++i) {
-            a.data()[i] = (T)r.range(-6, 6); b.data()[i] = (T)r.range(-6, 6); c.data()[i] = (T)r.range(-6, 6);
+            a.data()[i] = vt::from_int2<T>(r.range(-6, 6), r.range(-3, 3), vt::is_cx<T>()); b.data()[i] = vt::from_int2<T>(r.range(-6, 6), r.range(-3, 3), vt::is_cx<T>());
+            c.data()[i] = vt::from_int2<T>(r.range(-6, 6), r.range(-3, 3), vt::is_cx<T>());
             int rt = r.range(0, 6); q.data()[i] = (T)(rt * rt);
             int dv = r.range(1, 3) * (r.range(0, 1) ? 1 : -1); d.data()[i] = (T)dv;
             m.data()[i] = (T)(r.range(-4, 4)) * s;
             int t = r.range(-3, 3);
-            pre.data()[i] = divform ? (T)(t * dv) * s : (T)t;
+            pre.data()[i] = divform ? (T)(t * dv) * s : vt::from_int2<T>(t, r.range(-2, 2), vt::is_cx<T>());
         }
         asm volatile("" : : "r"(a.data()), "r"(b.data()), "r"(c.data()), "r"(q.data()), "r"(d.data()), "r"(m.data()), "r"(pre.data()) : "memory");
     }
@@ -155,7 +156,7 @@ class C02(Check):
     assumptions = ["operands are small integers / perfect squares / exact multiples, so every intermediate is an exact integer in all four types "
                    "and bit-exact equality is sound (checked per event by Expr!InDomain; out-of-domain events are skipped, not failed)",
                    "transcendental functions and IEEE special / integer boundary values are judged relative to the scalar C++ operation (table mode)",
-                   "complex element types are not in this plan (complex scalar*tensor evaluates to 0: finding D16)"]
+                   "complex<double> is exercised on the ring operations (unary minus, + - *, scalar on either side) only"]
 
     def plan(self, ctx):
         cfg = "GenExpr_%s.cfg" % ctx.tier
